@@ -335,15 +335,26 @@ def derived_events(res, h):
     """rare situations the quick tier must exercise (counted from the trace)"""
     pend = {}                   # thread -> (kind, val) of its pending CAS point
     incall = {}
+    N = dict(res["jcs"])
+    dec_ret = {j: 0 for j in N}
+    indec, late = {}, {}
     for e in res["events"]:
         if e.kind == "S" and e.words and e.words[0] == "wakemany.spin":
             h["wakemany.spin"] = h.get("wakemany.spin", 0) + 1
-        if e.kind == "C" and e.words[0] == "jcwait":
+        if e.kind == "C":
+            indec[e.actor] = e.words[1] if e.words[0] == "jcdec" and e.words[1] in N else None
+        if e.kind == "R" and indec.get(e.actor):
+            dec_ret[indec[e.actor]] += 1
+            indec[e.actor] = None
+        if e.kind == "C" and e.words[0] == "jcwait" and e.words[1] in N:
             incall[e.actor] = []
+            late[e.actor] = dec_ret[e.words[1]] >= N[e.words[1]]
         if e.kind == "R" and e.actor in incall:
             pts = incall.pop(e.actor)
             if pts == ["jc.wait.read"]:
                 h["wait.first.read.N"] = h.get("wait.first.read.N", 0) + 1
+                if late.get(e.actor):
+                    h["wait.late.immediate"] = h.get("wait.late.immediate", 0) + 1
             if "blockq.enq" in pts:
                 h["wait.slept"] = h.get("wait.slept", 0) + 1
         if e.kind != "P":
@@ -426,7 +437,7 @@ def run(ctx):
             ufail.append((c, uimpl[i] if i < len(uimpl) else "<no output>", msg))
 
     # ---- protocol runs ----------------------------------------------------------------------
-    nprog = 110 if not ctx.thorough else 2500
+    nprog = 250 if not ctx.thorough else 4000
     corpus = corpus_cases()
     cases = [c for _, c in corpus] + gen_cases(ctx, nprog)
     wd = os.path.join(ctx.dir, "runs")
